@@ -575,6 +575,8 @@ func (r *realm) authzMessage(sess *wamp.Session, msg wamp.Message) bool {
 			errRsp.Request = msg.Request
 		case *wamp.Yield:
 			errRsp.Request = msg.Request
+		case *wamp.Error:
+			errRsp.Request = msg.Request
 		}
 		if err != nil {
 			// Error trying to authorize. Include error message.
